@@ -7,6 +7,8 @@ decisions, so acceptance holds for all (real-valued) payloads."""
 import itertools
 import random
 
+import numpy as np
+
 from harness import common
 from harness.common import CaseResult, Obl
 from model import families
@@ -80,6 +82,27 @@ def taste_once(mods, ref, opts, limit, nofail, ctx, mutate=None, schedule=None, 
         except Exception as e:
             return 'raised', '%s: %s' % (type(e).__name__, str(e)[:160]), fs
     return ('good' if ok else 'bad'), buf.getvalue()[-300:], fs
+
+
+def nan_ref(case):
+    """The case's plotfile with one payload word replaced by NaN (finest level, largest box, last field, a middle cell); the level
+    header's rows for that box and field are the extrema of the other cells - what AMReX records and what taste documents as acceptable
+    ("Its okay if theres NaNs in the file").  None when no box has two cells."""
+    ref = families.make_ref('p', case['mesh'], case['fields'], layout=case['layout'], geom=case['geom'],
+                            ref_line_extra=case.get('ref_extra', 0), level_prefix=case.get('level_prefix', 'Level_'))
+    l = ref.nlev - 1
+    b = max(range(len(ref.data[l])), key=lambda k: ref.data[l][k].size)
+    arr = ref.data[l][b]
+    cells = list(np.ndindex(*arr.shape[:-1]))
+    if len(cells) < 2:
+        return None
+    c = ref.nf - 1
+    arr[cells[len(cells) // 2] + (c,)] = core.nanword()
+    rest = [x for x in arr[..., c].reshape(-1) if not core.is_nanword(x)]
+    ref.mins[l][b][c] = core.smin(rest)
+    ref.maxs[l][b][c] = core.smax(rest)
+    ref.nan_at = (l, b, c)
+    return ref
 
 
 def run_case(case):
@@ -220,6 +243,44 @@ def run_case(case):
             if obl.failed and 'C03/history' not in viol:
                 viol['C03/history'] = {'signature': 'C03/history', 'what': obl.failed[0][0], 'opts': list(opts), 'limit': limit, 'nofail': nofail, 'prior': [list(prior[0]), prior[1]]}
 
+    # one NaN among the data (header rows = extrema of the other cells): still a well-formed plotfile under every option set that
+    # reads the data; the facade gives min / max / nanmin / nanmax / isclose their IEEE meaning on that word, a decision reached
+    # through anything else flags the path
+    nref = nan_ref(case)
+    if nref is not None:
+        for opts, limit, nofail in [((True, True, True, True), None, False), ((False, False, True, False), None, True), ((True, False, True, False), nref.nlev - 1, True)]:
+            def npath(ctx, opts=opts, limit=limit, nofail=nofail):
+                obl = Obl(ctx)
+                outcome, detail, _ = taste_once(mods, nref, opts, limit, nofail, ctx)
+                obl.total += 1
+                if outcome == 'good':
+                    obl.trivial += 1
+                else:
+                    obl.failed.append(('Taster(headers=%s, shape=%s, data=%s, coords=%s, limit=%s, nofail=%s) on a well-formed plotfile with one NaN among the data: %s (%s)'
+                                       % (opts + (limit, nofail, outcome, detail.strip().splitlines()[-1] if detail.strip() else '')), None))
+                return obl
+            results, exhaustive, stats = core.explore(npath, max_paths=64, stop_after_failures=1)
+            res.add_explore(results, exhaustive, stats)
+            nruns += 1
+            for ctx, obl in results:
+                res.add_obl(obl)
+                if obl.failed and not ctx.flags and 'C03/nan-payload' not in viol:
+                    viol['C03/nan-payload'] = {'signature': 'C03/nan-payload', 'what': obl.failed[0][0], 'opts': list(opts), 'limit': limit, 'nofail': nofail, 'nan': True}
+
+        # canary of the NaN runs: the same plotfile with that box's minimum row one too large must be refused by the data comparison
+        # (un-flagged: the NaN word must not have swallowed the comparison)
+        cref = nan_ref(case)
+        l_, b_, c_ = cref.nan_at
+        cref.mins[l_][b_][c_] = cref.mins[l_][b_][c_] + 1
+
+        def ncanary(ctx):
+            return taste_once(mods, cref, (False, False, True, False), None, True, ctx)[0], list(ctx.flags)
+        ncres, _, _ = core.explore(ncanary, max_paths=4, stop_after_failures=1)
+        res['canaries'] += 1
+        # (some path must refuse it; paths on which the data are large enough for the relative tolerance to cover the 1 accept it)
+        if ncres and any(r[1][0] != 'good' and not r[1][1] for r in ncres):
+            res['canaries_fired'] += 1
+
     # canary: a plotfile with one binary file removed must not be accepted
     def canary(ctx):
         def rm(fs):
@@ -239,7 +300,7 @@ def run_case(case):
         if not common.claim('C03', sig):
             continue
         fs = SymFS()
-        ref.write_symfs(fs, '/work/plt')
+        (nref if v.get('nan') else ref).write_symfs(fs, '/work/plt')
         o = v['opts']
         pre = ''
         if v.get('prior'):
@@ -309,7 +370,7 @@ def main():
     common.clear_replays('C03')
     rep.rule = ('one case = one generated well-formed plotfile structure (incl. scattered / non-monotone layouts); per case the real Taster runs '
                 'for all 16 option combinations x level limits x {nofail, fail}, plus six other spellings of the path (trailing separator, absolute, dotted) for two option sets; distinct = (case, options, limit, mode)')
-    rep.assumptions = ['payload is real-valued (NaN/Inf outside for the binary_data option); min/max rows equal the true extrema of the payload',
+    rep.assumptions = ['payload is real-valued, plus one NaN word per structure in the NaN runs (Inf, several NaNs and NaN header rows outside); min/max rows equal the true extrema of the payload',
                        'geometry constants are dyadic, so the box-coordinate comparison is exact, except in the zero-face cases (concrete IEEE arithmetic of the real code on a domain around the origin with cell sizes 0.0025 / 0.001875 / 0.03)']
     rep.bounds = {'levels': '1-3', 'boxes_per_level': '1-4', 'fields': '1-4', 'files_per_level': '1-3'}
     common.run_cases(rep, run_case, cases())
